@@ -114,6 +114,25 @@ def cases(tier, inst):
                         if pos == "pform_arg" and conn == "or":
                             continue
                         yield ("bound_operand", c, left, conn, order, pos)
+    # --- the comparison with a sub-query operand at EVERY position of a condition tree with two or three leaves (every
+    #     shape, every connective assignment), next to plain conditions over x only, y only, and both
+    plain = [("cmp", "le", A(X, "q"), L(2)), ("cmp", "eq", A(Y, "q"), L(2)), ("cmp", "ne", A(X, "p"), A(Y, "p"))]
+    for c in (xonly if thorough else xonly[:2]):
+        for pos in ("operand", "attr_operand"):
+            for conn in ("and", "or"):
+                for d in plain:
+                    yield ("optree", c, pos, ("S", conn, d))
+                    yield ("optree", c, pos, (d, conn, "S"))
+            for c1 in ("and", "or"):
+                for c2 in ("and", "or"):
+                    for d1 in plain:
+                        for d2 in plain:
+                            if d1 == d2:
+                                continue
+                            for slots in (("S", d1, d2), (d1, "S", d2), (d1, d2, "S")):
+                                a_, b_, c_ = slots
+                                yield ("optree", c, pos, ((a_, c1, b_), c2, c_))
+                                yield ("optree", c, pos, (a_, c1, (b_, c2, c_)))
     for k in (3, 1):                                # the(...) with a unique solution (p == 3) / (q == 3 -> p==2,q==3)
         for op in ("eq", "ne"):
             yield ("the_operand", k, op)
@@ -199,6 +218,21 @@ def queries_of(case):
         pair_f = (flat_left, cmp_f) if order == "left_first" else (cmp_f, flat_left)
         n = ("Q", "an", "setof", (X, Y), ((conn,) + pair_n,), vxy_decl)
         f = ("Q", "an", "setof", (X, Y), ((conn,) + pair_f,), vxy_decl)
+        return n, f, RICH
+    if fam == "optree":
+        _, c, pos, tree = case
+        s = ("sub", sub_q(c))
+        cmp_n = ("cmp", "eq", A(Y, "ref"), s) if pos == "operand" else ("cmp", "ge", A(Y, "p"), A(s, "p"))
+        cmp_f = ("and", ("cmp", "eq", A(Y, "ref"), X) if pos == "operand" else ("cmp", "ge", A(Y, "p"), A(X, "p")), c)
+
+        def inst_tree(t, leaf):
+            if t == "S":
+                return leaf
+            if len(t) == 3 and t[1] in ("and", "or") and not isinstance(t[0], str) or (len(t) == 3 and t[0] == "S"):
+                return (t[1], inst_tree(t[0], leaf), inst_tree(t[2], leaf))
+            return t
+        n = ("Q", "an", "setof", (X, Y), (inst_tree(tree, cmp_n),), vxy_decl)
+        f = ("Q", "an", "setof", (X, Y), (inst_tree(tree, cmp_f),), vxy_decl)
         return n, f, RICH
     thec = {3: ("cmp", "eq", A(X, "p"), L(3)), 1: ("cmp", "eq", A(X, "q"), L(3))}
     if fam in ("the_operand", "the_attr"):
